@@ -321,7 +321,7 @@ fn ref_mangled<const L: usize>(n: &[u8; L], out: &mut [u8; 8]) -> usize {
 }
 
 macro_rules! c06_names {
-    ($name:ident, $l:expr, $first:expr, $unwind:expr) => {
+    ($name:ident, $mode:expr, $l:expr, $first:expr, $unwind:expr) => {
         #[kani::proof]
         #[kani::unwind($unwind)]
         fn $name() {
@@ -340,6 +340,7 @@ macro_rules! c06_names {
             }
             let s = unsafe { String::from_utf8_unchecked(n.to_vec()) };
             let f = zfd_named(s);
+            if $mode == 0 {
             // validated accessor
             let want = ref_enclosed(&n);
             match f.enclosed_name() {
@@ -359,6 +360,7 @@ macro_rules! c06_names {
                     kani::cover!(true);
                 }
             }
+            } else {
             // always-succeeding accessor
             let mut exp = [0u8; 8];
             let el = ref_mangled(&n, &mut exp);
@@ -374,31 +376,38 @@ macro_rules! c06_names {
             assert!(el == 0 || exp[0] != b'/');
             kani::cover!(el > 0 || sel[0] == 4 || sel[0] == 2 || sel[0] == 3 || sel[0] == 1);
             core::mem::forget(m);
+            }
             core::mem::forget(f);
         }
     };
 }
-/// C06 every name of length 2 over the path-relevant alphabet {a . / \ NUL} (25 names in one
-/// query): enclosed_name is Some exactly when an independent lexical walk says the name is
-/// relative, NUL-free and never climbs above its start, and then returns the name unchanged;
-/// mangled_name equals the reference (cut at NUL, \ -> /, only ordinary components in order).
-// @h prop=C06 tier=quick t=900 mem=10 name=c06_names_len2
-c06_names!(c06_names_len2, 2, -1, 8);
-/// C06 every name of length 3 over {a . / \ NUL} (125 names).
-// @h prop=C06 tier=quick t=1500 mem=16 name=c06_names_len3
-c06_names!(c06_names_len3, 3, -1, 9);
-/// C06 names of length 4 starting with 'a' (125 names).
-// @h prop=C06 tier=thorough t=3000 mem=20 name=c06_names_len4_a
-c06_names!(c06_names_len4_a, 4, 0, 10);
-/// C06 names of length 4 starting with '.' (125 names).
-// @h prop=C06 tier=thorough t=3000 mem=20 name=c06_names_len4_dot
-c06_names!(c06_names_len4_dot, 4, 1, 10);
-/// C06 names of length 4 starting with '/' (125 names).
-// @h prop=C06 tier=thorough t=3000 mem=20 name=c06_names_len4_slash
-c06_names!(c06_names_len4_slash, 4, 2, 10);
-/// C06 names of length 4 starting with '\' (125 names).
-// @h prop=C06 tier=thorough t=3000 mem=20 name=c06_names_len4_bslash
-c06_names!(c06_names_len4_bslash, 4, 3, 10);
-/// C06 names of length 4 starting with NUL (125 names).
-// @h prop=C06 tier=thorough t=3000 mem=20 name=c06_names_len4_nul
-c06_names!(c06_names_len4_nul, 4, 4, 10);
+/// C06 enclosed_name, every name of length 2 over the path-relevant alphabet {a . / \ NUL}
+/// (25 names in one query): Some exactly when an independent lexical walk says the name is
+/// relative, NUL-free and never climbs above its start, and then the name is returned unchanged.
+// @h prop=C06,C07 tier=quick t=900 mem=10 name=c06_enclosed_len2
+c06_names!(c06_enclosed_len2, 0, 2, -1, 8);
+/// C06 enclosed_name, every name of length 3 over {a . / \ NUL} (125 names).
+// @h prop=C06,C07 tier=quick t=1500 mem=16 name=c06_enclosed_len3
+c06_names!(c06_enclosed_len3, 0, 3, -1, 9);
+/// C06 enclosed_name, names of length 4 starting with 'a'.
+// @h prop=C06 tier=thorough t=3000 mem=20 name=c06_enclosed_len4_a
+c06_names!(c06_enclosed_len4_a, 0, 4, 0, 10);
+/// C06 enclosed_name, names of length 4 starting with '.'.
+// @h prop=C06 tier=thorough t=3000 mem=20 name=c06_enclosed_len4_dot
+c06_names!(c06_enclosed_len4_dot, 0, 4, 1, 10);
+/// C06 enclosed_name, names of length 4 starting with '/'.
+// @h prop=C06 tier=thorough t=3000 mem=20 name=c06_enclosed_len4_slash
+c06_names!(c06_enclosed_len4_slash, 0, 4, 2, 10);
+/// C06 enclosed_name, names of length 4 starting with '\'.
+// @h prop=C06 tier=thorough t=3000 mem=20 name=c06_enclosed_len4_bslash
+c06_names!(c06_enclosed_len4_bslash, 0, 4, 3, 10);
+/// C06 mangled_name, every name of length 1 over {a . / \ NUL}: equals the reference (cut at
+/// NUL, \ -> /, only ordinary components in order) and is relative.
+// @h prop=C06 tier=quick t=900 mem=12 name=c06_mangled_len1
+c06_names!(c06_mangled_len1, 1, 1, -1, 8);
+/// C06 mangled_name, every name of length 2 over {a . / \ NUL}.
+// @h prop=C06 tier=thorough t=3000 mem=24 name=c06_mangled_len2
+c06_names!(c06_mangled_len2, 1, 2, -1, 8);
+/// C06 mangled_name, every name of length 3 over {a . / \ NUL}.
+// @h prop=C06 tier=thorough t=3600 mem=30 name=c06_mangled_len3
+c06_names!(c06_mangled_len3, 1, 3, -1, 9);
